@@ -80,8 +80,12 @@ class LocalDateTime {
             : epochSeconds / 86400;
 
         // Avoid % operator, because it's slow on an 8-bit process and because
-        // epochSeconds could be negative.
-        acetime_t seconds = epochSeconds - 86400 * days;
+        // epochSeconds could be negative. For negative epochSeconds go through
+        // (days + 1), because 86400 * days does not fit in an acetime_t for
+        // the first (partial) day of its range.
+        acetime_t seconds = (epochSeconds < 0)
+            ? epochSeconds - 86400 * (days + 1) + 86400
+            : epochSeconds - 86400 * days;
         ld = LocalDate::forEpochDays(days);
         lt = LocalTime::forSeconds(seconds);
       }
@@ -248,7 +252,11 @@ class LocalDateTime {
 
       acetime_t days = mLocalDate.toEpochDays();
       acetime_t seconds = mLocalTime.toSeconds();
-      return days * 86400 + seconds;
+      // Same value either way; the first form keeps the intermediate product
+      // inside acetime_t for the first (partial) day of its range.
+      return (days < 0)
+          ? (days + 1) * 86400 + (seconds - 86400)
+          : days * 86400 + seconds;
     }
 
     /**
